@@ -32,12 +32,12 @@ PASS_FIRST = {
     'std::option::Option::take', 'std::option::Option::unwrap_or_default',
     'std::result::Result::unwrap_or_default', 'std::convert::identity',
     'std::slice::<impl [T]>::as_ref', 'std::vec::Vec::as_slice', 'std::vec::Vec::as_mut_slice',
-    'std::string::String::as_str', 'std::borrow::Cow::as_ref',
+    'std::string::String::as_str', 'std::borrow::Cow::as_ref', 'std::option::Option::transpose', 'std::result::Result::transpose',
 }
 MAP_LIKE = {'std::result::Result::map', 'std::option::Option::map',
             'std::result::Result::and_then', 'std::option::Option::and_then'}
 SUCCESS_VARIANTS = {'Ok', 'Some', 'Continue'}
-FAILURE_VARIANTS = {'Err', 'None', 'Break'}
+FAILURE_VARIANTS = {'Err'}            # (None / Break are also success-carrying values of Result<Option<T>> etc.: keep them)
 WRAPPER_ADTS = ('std::result::Result', 'std::option::Option', 'std::ops::ControlFlow')
 
 
@@ -268,6 +268,11 @@ def simplify_call(callee, args, site, resolver):
         return mk_any([args[1], apply_fn(args[2], [payload(args[0])], site)])
     if callee in ('std::option::Option::unwrap_or', 'std::result::Result::unwrap_or') and len(args) == 2:
         return mk_any([payload(args[0]), args[1]])
+    if callee in ('core::bool::then', 'std::bool::then') and len(args) == 2:
+        # cond.then(|| v)  ==  if cond { Some(v) } else { None }
+        return mk_any([('agg', 'std::option::Option', 'None', ()), ('agg', 'std::option::Option', 'Some', (('0', apply_fn(args[1], [], site)),))])
+    if callee in ('core::bool::then_some', 'std::bool::then_some') and len(args) == 2:
+        return mk_any([('agg', 'std::option::Option', 'None', ()), ('agg', 'std::option::Option', 'Some', (('0', args[1]),))])
     if callee == 'std::iter::Iterator::next':
         return ('next', args[0])
     if callee == 'std::iter::IntoIterator::into_iter' and args:
